@@ -14,7 +14,7 @@ import (
 var update = flag.Bool("update", false, "rewrite testdata/golden/*.v")
 
 // callees in other packages the fixtures use (always given first)
-var foreign = []string{"fixture/dep:Twice", "fixture/dep:Cfg.Apply", "encoding/binary:bigEndian.Uint16", "encoding/binary:bigEndian.Uint64",
+var foreign = []string{"clockNow#extern", "fixture/dep:Twice", "fixture/dep:Cfg.Apply", "encoding/binary:bigEndian.Uint16", "encoding/binary:bigEndian.Uint64",
 	"encoding/binary:littleEndian.Uint32", "encoding/binary:littleEndian.Uint64"}
 
 func scanAll(p *Pkg) (*Translator, map[string]*Func) {
@@ -51,6 +51,9 @@ func TestBasicTranslates(t *testing.T) {
 		t.Fatalf("only %d functions found", len(res))
 	}
 	for n, f := range res {
+		if n == "clockNow" {
+			continue // declared external
+		}
 		if f.Err != nil && !strings.HasSuffix(n, "Prefix") {
 			t.Errorf("%s: %v", n, f.Err)
 		}
@@ -86,7 +89,7 @@ func TestPrefix(t *testing.T) {
 func TestGolden(t *testing.T) {
 	names := []string{"AddU8", "AddI8", "ConstShift", "VarShl", "ShlS", "Div", "ConstDiv", "Cmp", "EqB", "Clamp", "Normalize",
 		"Shadow", "Named", "Swap", "Switch", "Ring.Next", "Ring.Len", "Ring.Twice", "Ring.Deep", "Outer", "At", "Tail", "BE16", "AndSafe",
-		"Guard", "Search", "Ring.Search", "Hash", "Ring.RangePrefix#prefix", "WalkPrefix#prefix", "fixture/dep:Cfg.Apply", "Holder.Scaled", "encoding/binary:bigEndian.Uint16", "UseStd", "Find", "RangeAssign", "Forever", "Nested", "LoopSwitch", "Sum", "LoopCall"}
+		"Guard", "Search", "Ring.Search", "Hash", "Ring.RangePrefix#prefix", "WalkPrefix#prefix", "Counter.SetSeq", "Counter.Bump", "Counter.Drain", "Counter.SumHist", "clockNow#extern", "Counter.Stamp", "fixture/dep:Cfg.Apply", "Holder.Scaled", "encoding/binary:bigEndian.Uint16", "UseStd", "Find", "RangeAssign", "Forever", "Nested", "LoopSwitch", "Sum", "LoopCall"}
 	T := New(Load("../testdata", "fixture", "basic"), "go_")
 	for _, n := range names {
 		if f := T.Translate(n); f.Err != nil {
@@ -120,7 +123,16 @@ func TestGolden(t *testing.T) {
 // every function of testdata/bad is refused, for the reason its `// want:` comment states
 func TestBadRefused(t *testing.T) {
 	p := Load("../testdata", "fixture", "bad")
-	_, res := scanAll(p)
+	T0 := New(p, "go_")
+	T0.Translate("clock#extern")
+	res := map[string]*Func{}
+	for pass := 0; pass < 3; pass++ {
+		for n := range p.Decls {
+			if f := res[n]; (f == nil || f.Err != nil) && n != "clock" {
+				res[n] = T0.Translate(n)
+			}
+		}
+	}
 	src, err := os.ReadFile("../testdata/bad/bad.go")
 	if err != nil {
 		t.Fatal(err)
